@@ -46,7 +46,10 @@ class LeakDetector:
     # -- state ---------------------------------------------------------
     def snap(self):
         m = self.m
-        return (tuple(sorted(m.current_units.items())),
+        # "int" and "1/fs" are two names of the same (internal) energy unit
+        cu = tuple(sorted((k, "1/fs" if (v == "int" and k in ("energy", "frequency")) else v)
+                          for k, v in m.current_units.items()))
+        return (cu,
                 tuple(m.basis_stack),
                 len(m.basis_transformations),
                 tuple(sorted(m.basis_registered.keys())),
